@@ -350,7 +350,7 @@ static void service_decoder_monitor(void)
 	struct delivery dcur;
 	struct pi_dec last[2][8], prev_same;      /* latest valid decode per class/type */
 	int have_last[2][8];
-	char net_name_prev[40] = "", net_name_last[40] = "", net_call_last[40] = "";
+	char net_name_prev[40] = "", net_name_last[40] = "", net_call_last[40] = "", net_call_conf[40] = "";
 	int have_name = 0, n_delivered_monitored = 0, n_announced = 0;
 	int first_pair_repeat_expected = -1;
 
@@ -462,13 +462,19 @@ static void service_decoder_monitor(void)
 				if (!have_name || 0 != strcmp(net_name_prev, name))
 					vf_fail("model:C09:announced-without-repeat", "network name '%s' announced although the previous name packet %s", name,
 						have_name ? "differed" : "does not exist");
-				if (ev_net[0].call[0] && 0 != strcmp(ev_net[0].call, net_call_last))
-					vf_fail("model:C09:network-call", "call letters announced '%s', latest sent '%s'", ev_net[0].call, net_call_last);
+				/* "announced after the documented repeat": like the name, call letters count once they
+				   have been received twice in a row (an empty field is always acceptable: a network
+				   change forgets them) */
+				if (ev_net[0].call[0] && 0 != strcmp(ev_net[0].call, net_call_conf))
+					vf_fail("model:C09:network-call", "call letters announced '%s', latest sent twice in a row '%s' (latest sent '%s')", ev_net[0].call, net_call_conf, net_call_last);
 				vf_count("network_announced", 1);
 			}
 			strcpy(net_name_last, name); have_name = 1;
 		} else if (d->cls == 2 && d->type == 2) {
-			strip(net_call_last, d->data, d->len);
+			char call[40];
+			strip(call, d->data, d->len);
+			if (0 == strcmp(call, net_call_last)) strcpy(net_call_conf, call);
+			strcpy(net_call_last, call);
 		}
 	}
 	vf_phase("vbi_decoder_delete");
